@@ -81,7 +81,7 @@ func H15e() {
 		peer.Certificate = &x509.Certificate{DNSNames: []string{san}}
 	}
 	nodeDID := did.DID{Method: "nuts", ID: "victim"}
-	out, err := tlsAuthenticator{serviceResolver: svc}.Authenticate(nodeDID, peer)
+	out, err := NewTLSAuthenticator(svc).Authenticate(nodeDID, peer) // the constructor is the stable entry point
 	if err == nil {
 		vCover("authenticated")
 		vAssert(out.Authenticated && out.NodeDID.ID == "victim", "H15e.marked: successful authentication did not mark the peer")
@@ -96,7 +96,7 @@ func H15e() {
 func H15e_twin() {
 	svc := hServices{endpoint: "grpc://a.b:5555"}
 	peer := transport.Peer{Certificate: &x509.Certificate{DNSNames: []string{vHostChars(3)}}}
-	if _, err := (tlsAuthenticator{serviceResolver: svc}).Authenticate(did.DID{Method: "nuts", ID: "v"}, peer); err == nil {
+	if _, err := NewTLSAuthenticator(svc).Authenticate(did.DID{Method: "nuts", ID: "v"}, peer); err == nil {
 		vAssert(false, "H15e_twin.reach: reachable")
 	}
 }
